@@ -79,6 +79,37 @@ def run(ctx):
                 for hb in local_callee_bodies(F, c):
                     if hb.crate == BG and hb.def_ != ib.def_ and any(is_inc(x) for x in hb.calls()):
                         incs += [(hb, x, c.bb) for x in hb.calls() if is_inc(x)]
+            # ... or be deferred: the displacement bumps an atomic tally of the queue, and whoever reports it to the recorder empties the
+            # tally in the same atomic step (`swap(0)`, or `fetch_sub` of exactly the amount that was loaded and reported)
+            deferred = []
+            if not incs:
+                ipr = Prov(ib)
+                for c in ib.calls():
+                    if c.name == "fetch_add" and "sync::atomic::Atomic" in (c.def_ or "") and c.args:
+                        fo = _ref_field(ib, c.args[0])
+                        if fo:
+                            deferred.append((c, fo))
+                for c, fld in deferred:
+                    incs.append((ib, c, c.bb))
+                    drains, stores, reports = [], [], []
+                    for rb in F.all_bodies(BG):
+                        if not in_bg(F, rb):
+                            continue
+                        rpr = None
+                        for x in rb.calls():
+                            if "sync::atomic::Atomic" in (x.def_ or "") and x.args and x.name in ("swap", "store", "fetch_sub", "fetch_and", "fetch_min", "compare_exchange", "fetch_update"):
+                                rpr = rpr or Prov(rb)
+                                if _ref_field(rb, x.args[0]) == fld:
+                                    (drains if x.name == "swap" else stores).append((rb, x))
+                            if is_inc(x):
+                                rpr = rpr or Prov(rb)
+                                reports.append((rb, x, rpr.operand(x.args[-1])))
+                    swapped = [(rb, x) for rb, x in drains if any(r_b is rb and ("call", x.bb) in o and not any(y[0] == "op" for y in o) for r_b, _, o in reports)]
+                    ctx.check(bool(swapped) and not stores, "R09.3", fnkey(ib) + "#deferred-overflow-tally-drained-atomically", loc(*( (stores[0][0], stores[0][1].bb) if stores else (ib, c.bb))),
+                              "the displacement is tallied in the atomic `%s` and reported later, but the tally is not emptied in the same atomic step as it is read "
+                              "(%s): entries displaced between the read and the reset are counted by nobody, so the reported overflow count falls short of "
+                              "the entries discarded" % (fld, "reset by `%s` in %s" % (stores[0][1].name, stores[0][0].name) if stores else "no `swap` whose result is the reported amount"),
+                              "tally `%s` drained by swap; the swapped value is the reported amount" % fld)
             ctx.check(len(incs) >= 1, "R09.3", fnkey(ib) + "#overflow-counter-present", loc(ib), "no metrique_queue_overflows counter increment next to the ring insertion")
 
             def guard_scan(body, at_bb, ins_cs):
@@ -100,6 +131,12 @@ def run(ctx):
                     # "is a metrics recorder installed": the matched Option holds the recorder (recognised by type, whatever the field is
                     # called and however the queue's inner state is reached)
                     from_rec = any(x[0] == "arg" and x[1] == 1 and "recorder" in x[2] for x in o)
+                    for x in o:
+                        # `self.recorder.is_some()`
+                        if x[0] == "call" and (body.term(x[1]).get("callee") or {}).get("name") in ("is_some", "is_none") and body.term(x[1]).get("args"):
+                            a0_ = op_local(body.term(x[1])["args"][0])
+                            if a0_ is not None and "MetricRecorder" in body.local_ty(a0_):
+                                from_rec = True
                     for s_ in body.stmts(i):
                         if s_["k"] == "assign" and s_["rv"]["k"] == "discr" and "MetricRecorder" in body.local_ty(s_["rv"]["place"]["l"]):
                             from_rec = True
@@ -113,7 +150,7 @@ def run(ctx):
                 return displaced_guard, guards, side_ok
 
             for hb, inc, site in incs:
-                amt = op_const(inc.args[-1]) or {}
+                amt = op_const(inc.args[1] if inc.name == "fetch_add" else inc.args[-1]) or {}
                 ctx.check(amt.get("int") == 1, "R09.3", fnkey(ib) + "#overflow-amount-1", loc(hb, inc.bb),
                           "overflow counter is bumped by %s per displaced entry instead of 1" % (amt.get("int", "a non-constant")))
                 in_loop = inc.bb in hb.reachable_after(inc.bb) or site in ib.reachable_after(site)
@@ -206,4 +243,25 @@ def _some_side(body, i, t, ins, pr):
     for v, tb in t["targets"]:
         if v == 1:
             return tb
+    return None
+
+
+
+def _ref_field(body, op):
+    """name of the field the reference operand `op` points at (`&self.shared.tally` -> 'tally'), following moves of the reference"""
+    l = op_local(op)
+    hops = 0
+    while l is not None and hops < 5:
+        ds = [d for d in body.defs().get(l, []) if not body.is_cleanup(d[1])]
+        if len(ds) != 1 or ds[0][0] != "assign" or ds[0][3]["k"] != "assign":
+            return None
+        rv = ds[0][3]["rv"]
+        if rv["k"] == "ref":
+            fs = [e for e in rv["place"].get("p", []) if e[0] == "f"]
+            return fs[-1][2] if fs and rv["place"]["p"][-1][0] == "f" else None
+        if rv["k"] in ("use", "cast"):
+            l = op_local(rv["op"])
+            hops += 1
+            continue
+        return None
     return None
